@@ -2477,10 +2477,10 @@ def to_arrow(
             )
 
         elif isinstance(layout, (ak.layout.UnmaskedArray)):
-            return recurse(layout.content, None, True)
+            return recurse(layout.content, mask, True)
 
         elif isinstance(layout, (ak.layout.VirtualArray)):
-            return recurse(layout.array, None, False)
+            return recurse(layout.array, mask, is_option)
 
         elif isinstance(layout, (ak.partition.PartitionedArray)):
             return pyarrow.chunked_array(
